@@ -176,6 +176,14 @@ class Interp:
             g = self.facts.by_id.get(e.get('cid')) if self.facts is not None else None
             if g is not None and len(g.params) == len(args) and e.get('obj') is None:
                 return Interp(g, self.facts, self.call_hook, self.max_steps).run({p['id']: a for p, a in zip(g.params, args)}, {})[0]
+            if g is not None and len(g.params) == len(args) and e.get('obj') is not None and strip(e['obj']) is not None and strip(e['obj']).get('k') == 'this':
+                # a method of the same object: it shares the member state
+                sub = Interp(g, self.facts, self.call_hook, self.max_steps)
+                sub.mem_stores = self.mem_stores
+                r, _, mem2, _ = sub.run({p['id']: a for p, a in zip(g.params, args)}, members)
+                members.clear()
+                members.update(mem2)
+                return r
             raise Unsupported('call of %s' % name)
         raise Unsupported('expression kind %s (%s)' % (k, show(e0)[:50]))
 
